@@ -50,6 +50,7 @@ pub fn run(ctx: &mut Ctx, suite: &str) {
         "c13e" => c12::run_shutdown_emfile(ctx),
         "c10r" => c12::run_upload_revoked(ctx),
         "c20w" => c04::run_c20w(ctx),
+        "c01l" => c04::run_c01l(ctx),
         "c08s" => c12::run_stall(ctx),
         "c19" => c19::run(ctx),
         "c20" => c20::run(ctx),
